@@ -209,6 +209,19 @@ def r3_table(ctx, F):
     t = sorted(vf.render(sv.call_args(c)[0], st, short=True) for c in live_calls(st) if c.name == "clear")
     fields = sorted("self." + f["name"] for f in F.structs["passthrough::inode_store::InodeStore"]["fields"])
     ctx.check("R3-handle-table", "clear/inode-store", t == fields, "InodeStore::clear clears %s; the store's maps are %s" % (t, fields), loc=st.loc())
+    # every lookup of a handle names (handle, inode) in that order: the table compares the stored inode with the second argument
+    ng = 0
+    for fb in F.fns.values():
+        if not in_passthrough(fb.key) or fb.self_adt == HMAP:
+            continue
+        for c in live_calls(fb):
+            if c.name == "get" and (c.self_adt == HMAP or (c.callee or "").endswith("HandleMap>::get")):
+                ng += 1
+                fv = vf.VF(fb, inline_depth=0)
+                a = [vf.render(x, fb, short=True) for x in fv.call_args(c)][1:]
+                okh = len(a) == 2 and ("handle" in a[0] or a[0] in ("h", "fh")) and a[1] == "inode"
+                ctx.check("R3-handle-table", "get-callers/%s#%d" % (fb.name, ng), okh, "%s looks a handle up as HandleMap::get(%s); required (handle, inode)" % (fb.name, ", ".join(a)), loc=c.loc())
+    ctx.check("R3-handle-table", "get-callers", ng >= 2, "only %d callers of HandleMap::get found" % ng)
     release_toggles(ctx, F, "R3-handle-table")
     from rules import c12
     c12.vfs_destroy(ctx, F, "R3-handle-table")
